@@ -214,7 +214,12 @@ func (c *cacheCtl) Store(q *dnsmsg.Question, clientAddr netip.Addr, resp *dnsmsg
 	negativeResp := resp.RCode != dnsmsg.RCodeSuccess
 
 	// store in memory
-	if c.memory != nil {
+	// A negative response is stored only if the key is absent. Absent in the
+	// memory cache does not mean absent in the cache: the redis cache can hold
+	// a live positive entry that the memory cache has rejected or evicted. With
+	// a redis cache it is redis (SET NX) that decides; the memory cache is
+	// filled from redis by the next lookup.
+	if c.memory != nil && !(negativeResp && c.redis != nil) {
 		c.memory.Store(k, storedTime, expireTime, v, negativeResp)
 	}
 
